@@ -97,6 +97,34 @@ def main(pid):
         {"text": "Mass. Gen. Laws ch. 1, § 3", "cls": "FullLawCitation", "key": "l1|3"},
         {"text": "5 U.S. at 137", "cls": "ShortCaseCitation", "key": "5|137|U.S."},
     ]})
+    # reporter strings that name SEVERAL editions: (i) an edition name shared by two reporters (all candidates are called
+    # like the string: the normalised reporter is the same whichever is guessed, so the year does not matter); (ii) a
+    # variation of differently named editions (the year decides the normalised reporter: identities are read off the
+    # extracted objects).  Both kinds also go through resolve_citations and are compared again afterwards (history).
+    namb = 0
+    for st in db["strings"]:
+        eds = st["editions"]
+        if len(eds) < 2:
+            continue
+        S = st["string"]
+        rng = {e: ((db["years"][e][0] or 1600), (db["years"][e][1] or today)) for e in eds}
+        ys = []
+        for e in eds:
+            y = next((y for y in (rng[e][0], rng[e][1]) if 1600 <= y <= today and all(not (rng[o][0] <= y <= rng[o][1]) for o in eds if o != e)), None)
+            if y:
+                ys.append(y)
+        if len(ys) < 2:
+            continue
+        namb += 1
+        same_name = st["is_exact"]
+        key = f"1|2|{S}" if same_name else "@groups"
+        m = [{"text": f"Foo v. Bar, 1 {S} 2 ({ys[0]}).", "cls": "FullCaseCitation", "key": key, "want": {"volume": "1", "reporter": S, "page": "2"}},
+             {"text": f"Baz v. Qux, 1 {S} 2 ({ys[1]}).", "cls": "FullCaseCitation", "key": key, "want": {"volume": "1", "reporter": S, "page": "2"}},
+             {"text": f"1 {S} 2", "cls": "FullCaseCitation", "key": key, "want": {"volume": "1", "reporter": S, "page": "2"}},
+             {"text": f"Bar, 1 {S} at 2.", "cls": "ShortCaseCitation", "key": key, "want": {"volume": "1", "reporter": S}},
+             {"text": f"See 1 {S}, at 2 ({ys[0]}).", "cls": "ShortCaseCitation", "key": key, "want": {"volume": "1", "reporter": S}}]
+        groups.append({"label": f"ambiguous:{S}", "members": m, "resolve_then_again": True})
+    ev.cov["ambiguous_reporter_groups"] = namb
     ex = vlib.impl_run("drv_extract", "db_examples", {})
     pool = ex["reporters"]
     size = 120
@@ -111,6 +139,10 @@ def main(pid):
     obs = vlib.impl_map("drv_extract", "run_equality", groups, chunks=vlib.NCPU * 2, env=env)
     shutil.rmtree(hs_dir, ignore_errors=True)
     ev.cov["members_extracted_through_hyperscan"] = sum(1 for g in groups for m in g["members"] if m.get("tok"))
+    for g, o in list(zip(groups, obs)):
+        if o.get("second"):
+            groups.append({**g, "label": o["second"]["label"]})
+            obs.append(o.pop("second"))
     fails, _ = tlc_judge("Trace_Equality", "Trace_Equality.cfg", obs, ev, "groups", chunk=1500)
     nfound = sum(1 for o in obs for row in o["rows"] if row["found"])
     skipped = sum(1 for o in obs for row in o["rows"] if not row["found"])
